@@ -183,6 +183,10 @@ def gen_function(contract, contracts, known=()):
                 else:
                     path.oblige(f"raises.{allowed[0]}.only_when", contract.eval_clause(interp, allowed[1], bound),
                                 {"kind": "raises", "clause": allowed[1], "exc": allowed[0]})
+                    # exceptional postconditions: what holds when the call is rejected with this exception
+                    for cname, text in (getattr(contract, "on_raise", None) or {}).get(allowed[0], {}).items():
+                        path.oblige(f"on_raise.{allowed[0]}.{cname}", contract.eval_clause(interp, text, bound),
+                                    {"kind": "on_raise", "clause": text, "exc": allowed[0], "specs": specs})
                 raise
             # returned normally
             if isinstance(result, X.GenV):
@@ -362,8 +366,16 @@ def build_replay(pid, contract, ob_name, meta, model, verdict_raw):
     else:
         call = f"_mod.{qn}(**{{k: v for k, v in args.items() if not k.startswith('_')}})"
     kind = meta.get("kind")
-    if contract.replay:
-        src = contract.replay(ob_name, meta, model)
+    src = contract.replay(ob_name, meta, model) if contract.replay else None
+    if src is None and kind == "on_raise":
+        with open(path, "w") as f:
+            f.write("#!/verif/.venv/bin/python\n# refuted exceptional postcondition; the contract offers no scenario for it\n"
+                    f"# property   : {pid}\n# obligation : {ob_name}\n# clause     : {meta.get('clause', '')}\n"
+                    "import sys\nprint('NO-FAILING-INPUT: no native scenario for this exceptional postcondition')\nsys.exit(2)\n"
+                    "\n# solver output (truncated):\n" + "\n".join("# " + ln for ln in (verdict_raw or "").splitlines()[:60]) + "\n")
+        os.chmod(path, 0o755)
+        return path
+    if src is not None:
         with open(path, "w") as f:
             f.write("#!/verif/.venv/bin/python\n# replay of a refuted obligation on the real code (public entry point)\n"
                     f"# property   : {pid}\n# obligation : {ob_name}\n# clause     : {meta.get('clause', '')}\n"
